@@ -80,7 +80,8 @@ fn build_inner(uid: Uid, spec: &SourceSpec, s: &mut Src, dup_of: Option<i32>, gi
                 Inner::Chan(rx)
             }
             Some(b) => {
-                let (tx, rx) = sync_channel::<u64>((*b).max(1) as usize);
+                // (bound 255 stands for a capacity above the 1024 batch limit)
+                let (tx, rx) = sync_channel::<u64>(if *b == 255 { 4096 } else { (*b).max(1) as usize });
                 s.senders.push(ChanTx::S(tx));
                 Inner::Chan(rx)
             }
